@@ -194,4 +194,31 @@ PROPS = {
                       "property says. The zero-metric-chunk sentinel defect (F19) is fixed.",
         "assumptions": ["read(write records) = records for encoding/csv"],
     },
+    "C05": {
+        "streams": ["sched-err"],
+        "rule": "sched-err (isolated child, hooks of package verifhook): every failure location of a three-chunk stream (cut in the middle of / 4 bytes into / 1 byte into every "
+                "document, a corrupt chunk at every position) x five reader entry points x {no delay, a 15 ms delay of the goroutine that reaches one of nine named points for the "
+                "k-th time}; plus seeded perturbed schedules (yield / 20 us / 200 us at every point with probability 0.3). Err() is read immediately after Next() returned false "
+                "and again later. Quick runs a third of the systematic schedules (all catcher.Add ones). Distinct = (reader, point, occurrence, stream).",
+        "level_text": "Theorem err_never_lost (Props/C05.lean): in the transition system of ReadChunks (two producer goroutines, consumer, unbuffered and 2-slot channels, catcher), "
+                      "for every input and every schedule without cancellation, once Next has returned false on a failing input Err is non-nil; proved from a 15-clause inductive "
+                      "invariant. err_lost_before_fix: with the pinned commit's order (close, then add) a 5-step schedule loses the error (decide). errors_retained: the catcher "
+                      "only grows. layer_above: the close-after-add shape composes to the document/matrix/series iterators.",
+        "level_note": "Mutex-protected catcher operations and channel operations are atomic steps of the model; the Go scheduler and memory model are trusted. The worker layers are "
+                      "covered by the composition lemma and by the forced/perturbed schedules on all five entry points, not by their own transition system.",
+        "assumptions": ["no cancellation (cancelling is not a decoding failure)"],
+    },
+    "C06": {
+        "streams": ["sched-close"],
+        "rule": "sched-close (isolated child): five reader entry points x four stream shapes (single tiny chunk; one 250-sample chunk > the 100-slot document buffers; 60 chunks > the "
+                "25-slot matrix buffer and the 2-slot chunk pipe; 4 small chunks) x cancel points k in {0,1,2,total/2,total-1,total,total+1} (thorough: every k) x {Close, context "
+                "cancel, Close twice, Close then cancel}; plus perturbed schedules. Observed: goroutines with library frames after a grace period, Next under a watchdog. "
+                "Distinct = (reader, action, k, stream).",
+        "level_text": "Theorems (Props/C06.lean) on the ReadChunks transition system with cancel as a scheduler choice at any point: after cancellation, while a producer goroutine is "
+                      "alive one of them can move (no goroutine blocked forever), every producer step strictly decreases a natural-number potential, consumer and cancel steps do not "
+                      "increase it, potential 0 = both exited, Next never blocks once the producers have exited, a second cancel is not a step.",
+        "level_note": "Bounded time is bounded steps; the wall-clock bound is the harness watchdog. The worker/streamer goroutines of the document, matrix and series iterators have the same "
+                      "select-with-ctx.Done shape; their termination is observed on every case (goroutine profile), their transition systems are not written out (finding F7 was in that layer).",
+        "assumptions": [],
+    },
 }
